@@ -7,6 +7,7 @@ import ast
 from tiv.astutil import body_walk, call_name, dotted, enclosing_stmt, guards, kw, norm, short, stores_in, walk_local
 from tiv.cfg import CFG, fmt_path
 from tiv.mutate import M
+from tiv.sem import trace, expand, same, same_bool, cx
 
 RULES = {
     "R1": "the cache key covers every mutable render input: every render-data field / iterator cell that a public control method can change and "
@@ -25,10 +26,49 @@ CONTROL = ("seek", "set_frame_duration", "set_padding", "set_render_args", "set_
 
 
 def iterate_facts(ck, m):
+    """The frame generator with its locals renamed to the roles the rules are written with (tiv.roles): frame, cache, frame_no,
+    cache_entry, frame_details, renderable, renderable_data."""
+    from tiv.roles import rename_locals
     itf = m.get(IT, "RenderIterator._iterate")
-    rc = [c for c in body_walk(itf) if isinstance(c, ast.Call) and norm(c.func) == "renderable._render_"]
-    ck.need(len(rc) == 1, "_iterate: renderable._render_(...) call not found")
-    return itf, rc[0]
+    rc = [c for c in body_walk(itf) if isinstance(c, ast.Call) and isinstance(c.func, ast.Attribute) and c.func.attr == "_render_"]
+    ck.need(len(rc) == 1, "_iterate: <renderable>._render_(...) call not found")
+    rc = rc[0]
+    roles = {}
+    if isinstance(rc.func.value, ast.Name):
+        roles[rc.func.value.id] = "renderable"
+    st = enclosing_stmt(rc)
+    if isinstance(st, ast.Assign) and isinstance(st.targets[0], ast.Name):
+        roles[st.targets[0].id] = "frame"
+    for n in body_walk(itf):
+        if isinstance(n, (ast.Assign, ast.AnnAssign)) and getattr(n, "value", None) is not None and "self._cached" in norm(n.value):
+            t = n.targets[0] if isinstance(n, ast.Assign) else n.target
+            if isinstance(t, ast.Name):
+                roles[t.id] = "cache"
+        if isinstance(n, ast.Assign) and norm(n.value) == "render_data[Renderable]":
+            for t in n.targets:
+                if isinstance(t, ast.Name):
+                    roles[t.id] = "renderable_data"
+    cache_v = next((k for k, v in roles.items() if v == "cache"), "cache")
+    for n in body_walk(itf):
+        if isinstance(n, ast.Subscript) and isinstance(n.value, ast.Name) and n.value.id == cache_v and isinstance(n.slice, ast.Name):
+            roles[n.slice.id] = "frame_no"
+    fno_v = next((k for k, v in roles.items() if v == "frame_no"), "frame_no")
+    for n in body_walk(itf):
+        v = getattr(n, "value", None)
+        if isinstance(n, (ast.Assign, ast.NamedExpr)) and v is not None and norm(v) == f"{cache_v}[{fno_v}]":
+            t = n.targets[0] if isinstance(n, ast.Assign) else n.target
+            if isinstance(t, ast.Name):
+                roles[t.id] = "cache_entry"
+    miss = rc
+    while miss is not None and not isinstance(miss, ast.If):
+        miss = getattr(miss, "_p", None)
+    if miss is not None:
+        for c in ast.walk(miss.test):
+            if isinstance(c, ast.Compare) and isinstance(c.left, ast.Name) and c.comparators and isinstance(c.comparators[0], ast.Tuple):
+                roles[c.left.id] = "frame_details"
+    applied = rename_locals(itf, roles)
+    ck.extra.setdefault("roles", {})["RenderIterator._iterate"] = applied
+    return itf, rc
 
 
 def rule_padding_after_cache(ck, m, rid):
@@ -53,7 +93,7 @@ def rule_padding_after_cache(ck, m, rid):
               "padded again (or keep a stale padding) after set_padding()", stmt="_iterate: no cache store after the padding step")
     # padding step reads the current cells
     for p_ in pads:
-        src = norm(p_.ast)
+        src = norm(trace(itf, p_.ast.value))
         ck.ob(rid, p_.ast, "self._padded_size" in src and "self._padding.pad(frame.render_output, frame.render_size)" in src,
               "the padding step must use the current self._padding / self._padded_size and pad the unpadded output with the unpadded size", stmt="_iterate: padding step uses current padding")
 
